@@ -561,6 +561,7 @@ class XInterp(Interp):
         self.calls = []  # CallV in evaluation order
         self._recv = {}  # id(receiver expression) -> value, while the enclosing call is being evaluated
         self.derived = {}  # derived symbol -> symbols it is computed from
+        self.celllens = {}  # length symbol -> Cell
         self.gfacts = Facts()  # facts that define symbols (ranges of loop variables, floors, random draws, cell lengths)
         self.maxlen_syms = {}
 
@@ -1086,6 +1087,7 @@ class XInterp(Interp):
             r = compose(base, spec, how)
             if isinstance(r, Cell):
                 ln = r.length
+                self.celllens[_one_sym(ln)] = r
                 self.gfact(st, ln, "<=", Lin.sym("maxlen(%s)" % r.src.name), "cell length <= longest cell")
                 self.gfact(st, Lin.sym("minlen(%s)" % r.src.name), "<=", ln, "shortest cell <= cell length")
             return r
